@@ -102,8 +102,12 @@ Theorem C06_unauthenticated_reply le t1 t2 o sc :
 Proof. exact (unauthenticated_reply le t1 t2 o sc). Qed.
 
 (* the add_appointment reply itself needs even less: u's projection and two heights (not the node, not the
-   caches) *)
+   caches).  user_row_ok: u's row is in table users whenever the gatekeeper knows u - true in every reachable
+   state (TowerInv.inv_user_rows); without it the store after the charge is refused (the repaired
+   StoredAppointment::UnknownUser path) and the reply is the authentication failure on both sides anyway, but
+   the projection alone does not show the two sides agree on the row *)
 Theorem C06_add_reply_depends le t1 t2 sc1 sc2 u loc b delay sig s1 s2 r1 r2 :
+  user_row_ok t1 u -> user_row_ok t2 u ->
   proj u t1 = proj u t2 /\ gk_height t1 = gk_height t2 /\ w_height t1 = w_height t2 ->
   step le t1 (OAdd (Some u) loc b delay sig) sc1 = (s1, OAddRes r1) ->
   step le t2 (OAdd (Some u) loc b delay sig) sc2 = (s2, OAddRes r2) -> r1 = r2.
